@@ -197,8 +197,10 @@ func MakeFiller(p *Plan, src string) node.Filler {
 				tx.Nonce = r.Uint64N(1 << 32)
 				tx.Value = randInt(r, 128, false)
 				tx.GasPrice = randInt(r, 64, false)
-				tx.MaxPrio = randInt(r, 40, false)
-				tx.MaxFee = randInt(r, 48, false)
+				if tx.Type == 2 { // only EIP-1559 transactions carry fee caps
+					tx.MaxPrio = randInt(r, 40, false)
+					tx.MaxFee = randInt(r, 48, false)
+				}
 				tx.Gas = 21000 + r.Uint64N(1<<20)
 				tx.Status = byte(r.IntN(2))
 				tx.GasUsed = r.Uint64N(1 << 30)
